@@ -1,6 +1,7 @@
 import VlsModel.Model.NodeReq
 import VlsModel.Props.C02
 import VlsModel.Props.C13
+import VlsModel.Gen.ReqShape
 /-
 C10 — A refused request changes nothing.
 
@@ -163,9 +164,135 @@ theorem C10_frame_tracker_remove (t : Tracker.Tracker) (p : Tracker.Proof) (v : 
     (hr : (Tracker.removeBlock t p v).2 = .err k) : (Tracker.removeBlock t p v).1.view = t.view :=
   C13.C13_atomic_remove_view t p v k hr
 
+
+/-! ### Tie to the source: the shape of every state-changing function (translate/x_reqshape.py)
+
+`Gen/ReqShape.lean` lists, for every function of channel.rs and node.rs that changes state or calls the
+persister, its refusing statements, mutations and persist calls in program order, re-extracted from the
+sources on every run.  `C10_gen_shape_table` states that no refusing statement follows an effect —
+i.e. the function is in the discipline of `C10_frame_general` — except at the sites listed in
+`expectedLate`, each argued below; `C10_shape_frame` is the frame theorem for any program of such a shape. -/
+
+open VlsModel.ReqShape in
+/-- a program with the extracted shape: the i-th statement's check / effect is arbitrary; a mutation made
+    by a call that can itself refuse is that call's check followed by its assignment -/
+def toStmts {σ : Type} (chk : Nat → σ → Bool) (eff : Nat → σ → σ) : Nat → List Ev → List (Stmt σ)
+  | _, [] => []
+  | i, .check :: r => .check (chk i) :: toStmts chk eff (i + 1) r
+  | i, .mutate _ false :: r => .effect (eff i) :: toStmts chk eff (i + 1) r
+  | i, .mutate _ true :: r => .check (chk i) :: .effect (eff i) :: toStmts chk eff (i + 1) r
+  | i, .persist _ :: r => .effect (eff i) :: toStmts chk eff (i + 1) r
+
+def allEffects {σ : Type} (l : List (Stmt σ)) : Bool :=
+  l.all (fun st => match st with | .effect _ => true | .check _ => false)
+
+open VlsModel.ReqShape in
+theorem late_true_allEffects {σ : Type} (chk : Nat → σ → Bool) (eff : Nat → σ → σ) (evs : List Ev) :
+    ∀ i, lateChecksAux true evs = 0 → allEffects (toStmts chk eff i evs) = true := by
+  induction evs with
+  | nil => intro i _; rfl
+  | cons e r ih =>
+    intro i h
+    cases e with
+    | check => simp [lateChecksAux] at h
+    | mutate c f =>
+      cases f with
+      | false =>
+        simp only [lateChecksAux, Bool.and_false, Bool.false_eq_true, if_false, Nat.zero_add] at h
+        simp only [toStmts, allEffects, List.all_cons, Bool.true_and]
+        exact ih (i + 1) h
+      | true => simp [lateChecksAux] at h
+    | persist c =>
+      simp only [lateChecksAux] at h
+      simp only [toStmts, allEffects, List.all_cons, Bool.true_and]
+      exact ih (i + 1) h
+
+open VlsModel.ReqShape in
+theorem late_false_checksFirst {σ : Type} (chk : Nat → σ → Bool) (eff : Nat → σ → σ) (evs : List Ev) :
+    ∀ i, lateChecksAux false evs = 0 → checksFirst (toStmts chk eff i evs) = true := by
+  induction evs with
+  | nil => intro i _; rfl
+  | cons e r ih =>
+    intro i h
+    cases e with
+    | check =>
+      simp only [lateChecksAux, Bool.false_eq_true, if_false, Nat.zero_add] at h
+      simp only [toStmts, checksFirst]
+      exact ih (i + 1) h
+    | mutate c f =>
+      simp only [lateChecksAux, Bool.false_and, Bool.false_eq_true, if_false, Nat.zero_add] at h
+      cases f with
+      | false =>
+        simp only [toStmts, checksFirst]
+        exact late_true_allEffects chk eff r (i + 1) h
+      | true =>
+        simp only [toStmts, checksFirst]
+        exact late_true_allEffects chk eff r (i + 1) h
+    | persist c =>
+      simp only [lateChecksAux] at h
+      simp only [toStmts, checksFirst]
+      exact late_true_allEffects chk eff r (i + 1) h
+
+/-- **C10 for every function of the extracted shape**: if no refusing statement follows an effect
+    (`lateChecks = 0`), a refused run of *any* program with that shape — whatever its checks test and
+    its effects do to (memory, store, pending log) — returns the state it started from. -/
+theorem C10_shape_frame {σ : Type} (evs : List ReqShape.Ev) (chk : Nat → σ → Bool) (eff : Nat → σ → σ) (s : σ)
+    (h : ReqShape.lateChecks evs = 0) (hr : (exec (toStmts chk eff 0 evs) s).2 = false) :
+    (exec (toStmts chk eff 0 evs) s).1 = s :=
+  C10_frame_general _ s (late_false_checksFirst chk eff evs 0 h) hr
+
+/-- The functions with a refusing statement after an effect, and how many.  Each entry is a site the
+    simulator watches dynamically; the argument why it is harmless (or the finding it is):
+
+* `revoke_previous_holder_commitment` (1): `next_holder_commit_info = None`, then
+  `advance_holder_commitment_state(..)?`.  The callee's guards (`num = next + 1`, the point and secret
+  range checks of `release_commitment_secret`) hold whenever the caller reaches it
+  (`new_current_commitment_number = next_holder_commit_num` was tested at the top): proved on the
+  enforcement model (`C10_frame_channel`, revoke branch).
+* `sign_holder_commitment_tx_for_recovery` (2): `channel_closed = true`, then
+  `derive_public_revocation_key(..)?` (fails only for an invalid per-commitment point, which the channel
+  derived itself) and `get_unilateral_close_key(&Some(..), &Some(..))?` (its error branches need a `None`).
+* `activate_initial_commitment` (1): the `return Err` of the `else` branch of
+  `if let Some(..) = next_holder_commit_info.take()` — taken exactly when nothing was taken.
+* `check_onchain_tx` (1): the fee is counted before `policy_err!("policy-onchain-fee-range")` — and
+  before the signing step of the caller can refuse: the listed known finding of C10. -/
+def expectedLate : List (Gen.ReqShape.Fn × Nat) :=
+  [(.revoke_previous_holder_commitment, 1), (.sign_holder_commitment_tx_for_recovery, 2),
+   (.activate_initial_commitment, 1), (.check_onchain_tx, 1)]
+
+/-- **C10_gen_shape_table** (generated obligation): in the current sources the functions with a
+    refusing statement after an effect are exactly the listed ones. -/
+theorem C10_gen_shape_table :
+    (Gen.ReqShape.Fn.all.filterMap (fun f =>
+      if ReqShape.lateChecks (Gen.ReqShape.evs f) = 0 then none
+      else some (f, ReqShape.lateChecks (Gen.ReqShape.evs f)))) = expectedLate := by
+  decide +kernel
+
+/-- … hence every other state-changing function is in the discipline, and `C10_shape_frame` applies. -/
+theorem C10_gen_shape_frame {σ : Type} (f : Gen.ReqShape.Fn) (hf : f ∉ expectedLate.map (·.1))
+    (chk : Nat → σ → Bool) (eff : Nat → σ → σ) (s : σ)
+    (hr : (exec (toStmts chk eff 0 (Gen.ReqShape.evs f)) s).2 = false) :
+    (exec (toStmts chk eff 0 (Gen.ReqShape.evs f)) s).1 = s := by
+  apply C10_shape_frame _ _ _ _ _ hr
+  revert hf
+  cases f <;> decide +kernel
+
+/-- `Fn.all` really lists every constructor (so the table theorem quantifies over all functions found) -/
+theorem C10_gen_shape_all (f : Gen.ReqShape.Fn) : f ∈ Gen.ReqShape.Fn.all := by
+  cases f <;> decide +kernel
+
+/-- non-vacuity: the shape of `validate_counterparty_revocation` (checks, a refusing setter, an
+    assignment, persist) with a concrete interpretation: refused at the setter's check, state unchanged;
+    the F9 shape (assignment moved before the setter) is not in the discipline -/
+example : ReqShape.lateChecks [.check, .mutate .chan true, .mutate .chan false, .persist .chan] = 0 ∧
+    ReqShape.lateChecks [.check, .mutate .chan false, .mutate .chan true, .persist .chan] = 1 ∧
+    exec (toStmts (fun i (_ : Nat) => i != 1) (fun _ s => s + 1) 0
+      [.check, .mutate .chan true, .mutate .chan false, .persist .chan]) 7 = (7, false) := by
+  decide
+
 /-! ### Non-vacuity -/
 
-def cfg0 : Cfg := { maxInvoices := 4, readyOid := 1, now := 1600000000 }
+def cfg0 : Cfg := { maxInvoices := 4, maxChannels := 3, readyOid := 1, now := 1600000000 }
 def s0 : St := St.init (Velocity.VC.ofSpec ⟨10000000, .hourly⟩)
 
 /-- a refused allowlist update after an accepted one (the F3 shape) -/
